@@ -157,25 +157,51 @@ Qed.
 
 Ltac ei_side := first [ assumption | (intros; reflexivity) ].
 
-Ltac ei_tac :=
-  repeat first
-    [ assumption
-    | apply ei_refl
-    | (apply ei_emit; [ | reflexivity ])
-    | (apply ei_submit; [ ei_side | ])
-    | apply ei_push_main
-    | (apply ei_timer_add; [ ei_side | ei_side | ])
-    | (apply ei_ref_clone; [ ei_side | ])
-    | (apply ei_log_rec; [ ei_side | ])
-    | (apply ei_new_actor; [ ei_side | ei_side | ei_side | ])
-    | (apply ei_target_ev; [ ei_side | ])
-    | (apply ei_tok_script; [ ei_side | ei_side | ])
-    | (eapply ei_bind; [ | eassumption ])
-    | (eapply ei_bad; [ ei_side | | eassumption ])
-    | (eapply ei_take; [ | eassumption ])
-    | (eapply ei_take_caps; [ | eassumption ])
-    | (eapply ei_inst; [ ei_side | | eassumption ])
-    | (eapply ei_inst_call; [ ei_side | ei_side | | eassumption ])
-    | (eapply ei_inst_nocaps; [ ei_side | | eassumption ])
-    | (eapply ei_mk_notifier; [ ei_side | ei_side | ei_side | ei_side | | eassumption ])
-    | (eapply ei_same; [ | reflexivity ]) ].
+Ltac ei_step :=
+  lazymatch goal with
+  | |- evs_in _ ?s ?s => apply ei_refl
+  | |- evs_in _ _ (emit _ _) => apply ei_emit; [ | reflexivity ]
+  | |- evs_in _ _ (submit _ _ _) => apply ei_submit; [ ei_side | ]
+  | |- evs_in _ _ (push_main _ _) => apply ei_push_main
+  | |- evs_in _ _ (timer_add _ _ _ _ _) => apply ei_timer_add; [ ei_side | ei_side | ]
+  | |- evs_in _ _ (ref_clone _ _) => apply ei_ref_clone; [ ei_side | ]
+  | |- evs_in _ _ (log_rec _ _ _ _ _) => apply ei_log_rec; [ ei_side | ]
+  | |- evs_in _ _ (new_actor _ _ _ _ _) => apply ei_new_actor; [ ei_side | ei_side | ei_side | ]
+  | |- evs_in _ _ (target_ev _ _) => apply ei_target_ev; [ ei_side | ]
+  | |- evs_in _ _ (tok_script _ _) => apply ei_tok_script; [ ei_side | ei_side | ]
+  | |- evs_in _ _ (upd_actor ?s _ _) => apply (ei_same _ _ s); [ | reflexivity ]
+  | |- evs_in _ _ (push_frame ?s _ _) => apply (ei_same _ _ s); [ | reflexivity ]
+  | |- evs_in _ _ (set_alive ?s _) => apply (ei_same _ _ s); [ | reflexivity ]
+  | |- evs_in _ _ (set_now ?s _) => apply (ei_same _ _ s); [ | reflexivity ]
+  | |- evs_in _ _ (set_start ?s _) => apply (ei_same _ _ s); [ | reflexivity ]
+  | |- evs_in _ _ (set_mainq ?s _) => apply (ei_same _ _ s); [ | reflexivity ]
+  | |- evs_in _ _ (set_lazyq ?s _) => apply (ei_same _ _ s); [ | reflexivity ]
+  | |- evs_in _ _ (set_idleq ?s _) => apply (ei_same _ _ s); [ | reflexivity ]
+  | |- evs_in _ _ (set_timers ?s _) => apply (ei_same _ _ s); [ | reflexivity ]
+  | |- evs_in _ _ (set_tnext ?s _) => apply (ei_same _ _ s); [ | reflexivity ]
+  | |- evs_in _ _ (set_tvars ?s _) => apply (ei_same _ _ s); [ | reflexivity ]
+  | |- evs_in _ _ (set_recreate ?s _) => apply (ei_same _ _ s); [ | reflexivity ]
+  | |- evs_in _ _ (set_actors ?s _) => apply (ei_same _ _ s); [ | reflexivity ]
+  | |- evs_in _ _ (set_fwds ?s _) => apply (ei_same _ _ s); [ | reflexivity ]
+  | |- evs_in _ _ (set_env ?s _) => apply (ei_same _ _ s); [ | reflexivity ]
+  | |- evs_in _ _ (set_frames ?s _) => apply (ei_same _ _ s); [ | reflexivity ]
+  | |- evs_in _ _ (set_nuid ?s _) => apply (ei_same _ _ s); [ | reflexivity ]
+  | |- evs_in _ _ (set_logseq ?s _) => apply (ei_same _ _ s); [ | reflexivity ]
+  | |- evs_in _ _ (set_logfilter ?s _) => apply (ei_same _ _ s); [ | reflexivity ]
+  | |- evs_in _ _ (set_haslogger ?s _) => apply (ei_same _ _ s); [ | reflexivity ]
+  | |- evs_in _ _ (set_shut ?s _) => apply (ei_same _ _ s); [ | reflexivity ]
+  | |- evs_in _ _ (if ?b then _ else _) => destruct b
+  | |- evs_in _ _ ?s' =>
+      match goal with
+      | H : take _ _ = (_, s') |- _ => eapply ei_take; [ | exact H ]
+      | H : take_caps _ _ = (_, s') |- _ => eapply ei_take_caps; [ | exact H ]
+      | H : bind _ _ _ = (_, s') |- _ => eapply ei_bind; [ | exact H ]
+      | H : bad _ _ = (_, s') |- _ => eapply ei_bad; [ ei_side | | exact H ]
+      | H : inst _ _ _ = (_, s') |- _ => eapply ei_inst; [ ei_side | | exact H ]
+      | H : inst_call _ _ _ = (_, s') |- _ => eapply ei_inst_call; [ ei_side | ei_side | | exact H ]
+      | H : inst_nocaps _ _ _ = (_, s') |- _ => eapply ei_inst_nocaps; [ ei_side | | exact H ]
+      | H : mk_notifier _ _ _ = (_, s') |- _ => eapply ei_mk_notifier; [ ei_side | ei_side | ei_side | ei_side | | exact H ]
+      end
+  end.
+
+Ltac ei_tac := repeat ei_step.
